@@ -481,7 +481,21 @@ def main(tier, seed):
     per = 6 if tier == "quick" else 200
     n = NCPU
     jobs = [{"seed": seed, "lo": i * per, "hi": (i + 1) * per, "scripts": scripts[i::n]} for i in range(n)]
+    # the real world in parallel: blocking client and simulator on their own threads and OS sockets
+    import threading
+
+    real = {}
+
+    def real_part():
+        real["res"] = run_shards("checks.c20_real", "shard_real", [{"tier": tier, "seed": seed, "pairs": 6, "parts": ["handshake", "fifo"]}], timeout=3000, workers=1)
+
+    th = threading.Thread(target=real_part)
+    th.start()
     run.absorb(run_shards("checks.c20", "shard", jobs, timeout=3400))
+    th.join()
+    run.absorb(real["res"])
+    if not run.counters.get("real_world_unavailable"):
+        run.need(run.counters.get("real_handshakes_completed", 0) >= 3 and run.counters.get("real_fifo_batches_in_order", 0) >= 3, "the real-socket part observed too few handshakes / send batches")
     run.absorb(run_shards("checks.c20", "stress_shard", [{"seed": seed * 7 + i} for i in range(2 if tier == "quick" else 8)], timeout=900, workers=4))
     run.need(run.counters.get("dispatches_matched", 0) > 300, "too few dispatches observed")
     run.need(run.counters.get("dispatches_after_which_handler_raised", 0) > 10, "no raising handler exercised")
@@ -494,7 +508,7 @@ def main(tier, seed):
     run.need(run.counters.get("send_batches_with_incoming_flood", 0) > 10, "no send batch was paced against an incoming flood")
     run.extra["handshake_loss_scripts"] = len(scripts)
     return run.finish(
-        rule="engine scenarios under the baton scheduler: 1-5 recording handlers with overlapping acceptance in drawn registration orders (some raising, some self-removing) x 3-24 datagrams; 2-39 queued sends with drawn gaps; requests with timeout 0.01-8 s and 0-12 retries, unanswered or answered at a drawn transmission; handshake loss scripts enumerated per step (attempt k of version / channel / config / status is the first to get through, k = 2..11, loss placed on the request, the reply, or one segment of the status chain) plus drawn combinations; real-thread stress of the send/handler queues with line-level yield injection; one evaluation = one dispatch / send batch / request lifetime / handshake / stress run",
+        rule="engine scenarios under the baton scheduler: 1-5 recording handlers with overlapping acceptance in drawn registration orders (some raising, some self-removing) x 3-24 datagrams; 2-39 queued sends with drawn gaps; requests with timeout 0.01-8 s and 0-12 retries, unanswered or answered at a drawn transmission; handshake loss scripts enumerated per step (attempt k of version / channel / config / status is the first to get through, k = 2..11, loss placed on the request, the reply, or one segment of the status chain) plus drawn combinations; real-thread stress of the send/handler queues with line-level yield injection; one evaluation = one dispatch / send batch / request lifetime / handshake / stress run; plus the real world: 6 blocking-client/simulator pairs in one process with their own threads and OS sockets over UDP on 127.0.0.1, one attempt of one handshake step lost, then a batch of distinguishable queued sends whose order is read at the spa's OS socket (pacing measured only)",
         assumptions=["threads switch only at their blocking points (recvfrom, Event.wait, join) under the baton scheduler; real pre-emption inside the critical sections is probed separately by the stress part", "a loss script is admissible iff for each of the four steps some attempt within the retry budget has its request and complete reply delivered"],
     )
 
